@@ -142,7 +142,7 @@ class Module:
         self.name = os.path.relpath(path, PKG)[:-3].replace(os.sep, '.')
         with open(path, encoding='utf-8') as f:
             self.text = f.read()
-        self.tree = ast.parse(self.text, filename=path)
+        self.tree = unwalrus(ast.parse(self.text, filename=path))
         set_parents(self.tree)
         self.funcs = {}      # qual -> Func
         self.classes = {}    # name -> ClassDef
@@ -486,6 +486,83 @@ class Module:
             if n is not None:
                 return n, c
         return None, None
+
+
+def _first_walrus(test):
+    """the assignment expression that a test evaluates FIRST and unconditionally -- the test itself, the operand of `not`, the left
+    side of a comparison, the first operand of and / or (recursively) -- as (NamedExpr, replace) or None"""
+    if isinstance(test, ast.NamedExpr) and isinstance(test.target, ast.Name):
+        return test
+    if isinstance(test, ast.UnaryOp) and isinstance(test.op, ast.Not):
+        return _first_walrus(test.operand)
+    if isinstance(test, ast.Compare):
+        return _first_walrus(test.left)
+    if isinstance(test, ast.BoolOp):
+        return _first_walrus(test.values[0])
+    return None
+
+
+def unwalrus(tree):
+    """`if (x := e) ...:` is `x = e` followed by `if x ...:` (an `elif` is an `if` in the else branch, so the assignment goes there);
+    `while (x := e) ...:` is `while True: x = e; if not (x ...): break; ...`.  Only the assignment a test evaluates first and
+    unconditionally is moved: the statement does the same things in the same order, and every rule sees the plain form."""
+    class T(ast.NodeTransformer):
+        def _block(self, stmts):
+            out = []
+            for st in stmts:
+                st = self.visit(st)
+                if isinstance(st, list):
+                    out.extend(st)
+                else:
+                    out.append(st)
+            return out
+
+        def generic_visit(self, node):
+            for fld in ('body', 'orelse', 'finalbody'):
+                v = getattr(node, fld, None)
+                if isinstance(v, list) and v and isinstance(v[0], ast.stmt):
+                    setattr(node, fld, self._block(v))
+            for h in getattr(node, 'handlers', []) or []:
+                h.body = self._block(h.body)
+            for c in getattr(node, 'cases', []) or []:
+                c.body = self._block(c.body)
+            return node
+
+        def _hoist(self, test):
+            w = _first_walrus(test)
+            if w is None:
+                return None, test
+            assign = ast.copy_location(ast.Assign(targets=[ast.copy_location(ast.Name(id=w.target.id, ctx=ast.Store()), w)], value=w.value), w)
+            name = ast.copy_location(ast.Name(id=w.target.id, ctx=ast.Load()), w)
+
+            class R(ast.NodeTransformer):
+                def visit_NamedExpr(self, n):
+                    return name if n is w else n
+            return assign, R().visit(test)
+
+        def visit_If(self, node):
+            self.generic_visit(node)
+            assign, test = self._hoist(node.test)
+            if assign is None:
+                return node
+            node.test = test
+            return [assign, node]
+
+        def visit_While(self, node):
+            self.generic_visit(node)
+            if node.orelse:
+                return node
+            assign, test = self._hoist(node.test)
+            if assign is None:
+                return node
+            brk = ast.copy_location(ast.If(test=ast.copy_location(ast.UnaryOp(op=ast.Not(), operand=test), node), body=[ast.copy_location(ast.Break(), node)], orelse=[]), node)
+            node.test = ast.copy_location(ast.Constant(value=True), node)
+            node.body = [assign, brk] + node.body
+            return node
+    t = T()
+    tree.body = t._block(tree.body)
+    ast.fix_missing_locations(tree)
+    return tree
 
 
 class Source:
